@@ -292,9 +292,14 @@ func c13Random(rr *prng.R, r *fw.Rec) {
 		}
 		srt := sortProgram(terms).(*jast.Sort)
 		srt.X = &jast.Path{Steps: []jast.Node{&jast.Name{V: "arr"}}, Keep: true}
-		var tree jast.Node = srt
+		var head jast.Node = srt
+		if rr.Intn(3) == 0 {
+			// ... also when the sorted sequence is filtered
+			head = &jast.Pred{X: srt, Filters: []jast.Node{&jast.Num{V: 0}}}
+		}
+		tree := head
 		if rr.Bool() {
-			tree = &jast.Path{Steps: []jast.Node{srt, &jast.Name{V: "id"}}}
+			tree = &jast.Path{Steps: []jast.Node{head, &jast.Name{V: "id"}}}
 		}
 		modelCheck(r, tree, one, "order-by-after-keep-array-marker", judge.Opts{EmptyIsUndef: true}, nil)
 	case kind < 5 && nterms > 1 && rr.Intn(4) == 0:
